@@ -31,6 +31,7 @@ n_p_png == <<"p",".","p","n","g">>
 n_ab_txt == <<"a","b",".","t","x","t">>
 n_a_min_js == <<"a",".","m","i","n",".","j","s">>
 n_index_js == <<"i","n","d","e","x",".","j","s">>
+n_reindex == <<"r","e">> \o INDEX                            \* ends with, but is not, the index name
 n_a_js_html == <<"a",".","j","s",".","h","t","m","l">>      \* two extensions: only the last one is omitted (once)
 n_w_html_js == <<"w",".","h","t","m","l",".","j","s">>
 d_sub == <<"s","u","b">>
@@ -64,7 +65,8 @@ SeedTrees == {
   {F(<<>>, n_a_js, "text"), F(<<>>, n_ab_txt, "text"), F(<<>>, n_a_min_js, "text"), F(<<>>, n_a_html, "empty"),
    F(<<d_a>>, n_b_txt, "text")},
   {F(<<d_djs>>, n_index, "text"), F(<<d_djs>>, n_b_txt, "text"), F(<<>>, n_index_js, "text"), F(<<>>, n_data_json, "bin")},
-  {F(<<>>, n_a_js_html, "text"), F(<<>>, n_b_txt, "text"), F(<<d_sub>>, n_w_html_js, "text")}
+  {F(<<>>, n_a_js_html, "text"), F(<<>>, n_b_txt, "text"), F(<<d_sub>>, n_w_html_js, "text")},
+  {F(<<d_sub>>, n_reindex, "text"), F(<<>>, n_b_txt, "text"), F(<<d_a>>, n_reindex, "text"), F(<<d_a>>, n_index, "empty"), F(<<>>, n_reindex, "text")}
 }
 
 OmitChoices == {<<>>, <<HTML>>, <<HTML, e_js>>} \cup (IF PROFILE = "quick" THEN {} ELSE {<<e_js>>, <<e_json, HTML>>})
